@@ -38,7 +38,7 @@ use pie::resource::file::{ExistsChecker, FsError, ModifiedChecker, OpenRead};
 use pie::{Pie, Resource, ResourceChecker};
 use serde_json::{json, Value};
 
-use crate::common::{engine_error, Args, Report, Tier, Violation, VERIF_DIR};
+use crate::common::{engine_error, verif_dir, Args, Report, Tier, Violation};
 
 // ---------------------------------------------------------------------------------------------------------------------
 // Alphabet
@@ -1057,7 +1057,7 @@ impl Plan {
   }
 }
 
-fn scratch_root() -> PathBuf { PathBuf::from(format!("{}/tmp/c13-{}", VERIF_DIR, std::process::id())) }
+fn scratch_root() -> PathBuf { PathBuf::from(format!("{}/tmp/c13-{}", verif_dir(), std::process::id())) }
 
 fn cleanup(root: &Path) {
   let _ = fs::remove_dir_all(root);
